@@ -12,7 +12,7 @@ import time
 
 prop, sdir, name = sys.argv[1:4]
 tier = sys.argv[5] if len(sys.argv) > 5 and sys.argv[4] == "--tier" else "quick"
-VERIF = "/verif"
+VERIF = os.path.dirname(os.path.dirname(os.path.dirname(os.path.abspath(__file__))))
 work = "/var/tmp/seedtry.%d" % os.getpid()
 orig, mut = work + "/orig", work + "/mut"
 os.makedirs(work)
